@@ -1,7 +1,7 @@
 """C03 — run to completion (engine M: the real mainEventLoop on a pre-loaded external queue vs the reference macrostep loop)."""
 LEVEL = 'model_checking'
 
-QUICK = ['h_queues', 'h_loop_s0', 'h_loop_s1', 'h_loop_s6']
+QUICK = ['h_queues', 'h_loop_s0', 'h_loop_s1', 'h_loop_s6', 'h_loopi_s1']
 THOROUGH = QUICK + ['h_loop_s3', 'h_loop_s7', 'h_loop_s4', 'h_loopf_s0', 'h_loopf_s1', 'h_loopf_s6', 'h_loop3_s0']
 
 
